@@ -234,6 +234,8 @@ def process(R, T, data, driver, cls, repro, path=None, qs=None):
                          'json': 'application/json', 'yaml': 'text/yaml'}.get(kind, 'application/octet-stream')
                 if repro.get('charset'):
                     ctype = ctype.split(';')[0] + '; charset=' + repro['charset']
+                if repro.get('ctype'):
+                    ctype = repro['ctype']
                 env, inp = drive.make_environ('POST', '/', '', data, ctype)
             w = drive.call_wsgi(T.wsgi, env, inp)
             exc, stage, out, code = w.exc, w.exc_stage, w.body, w.code
@@ -501,6 +503,43 @@ def raw_mutants(rng, kind, T, struct, tier):
     return out
 
 
+def mime_mutants(rng, data, tier):
+    """SOAP with attachments: the envelope as root part of a multipart/related body, and broken variants of that"""
+    B = b'vfb'
+    CT = 'multipart/related; boundary="vfb"; start="<root>"; type="text/xml"'
+
+    def part(headers, payload):
+        return b'--' + B + b'\r\n' + b''.join(h + b'\r\n' for h in headers) + b'\r\n' + payload + b'\r\n'
+    root = part([b'Content-Type: text/xml; charset=utf-8', b'Content-ID: <root>'], data)
+    att = part([b'Content-Type: application/octet-stream', b'Content-Transfer-Encoding: base64', b'Content-ID: <att1>'], b'QUJD')
+    end = b'--' + B + b'--\r\n'
+    out = [('valid:multipart', root + att + end, CT)]
+    V = lambda name, body, ct=CT: out.append(('mut:mime_' + name, body, ct))
+    V('attachment_without_id', root + part([b'Content-Type: application/octet-stream'], b'ABC') + end)
+    V('attachment_location', root + part([b'Content-Type: application/octet-stream', b'Content-Location: http://x/att'], b'ABC') + end)
+    V('no_boundary_param', root + att + end, 'multipart/related; start="<root>"')
+    V('wrong_boundary', root + att + end, 'multipart/related; boundary="other"; start="<root>"')
+    V('start_unknown', root + att + end, 'multipart/related; boundary="vfb"; start="<nope>"')
+    V('no_start', root + att + end, 'multipart/related; boundary="vfb"')
+    V('attachment_only', att + end)
+    V('attachment_first', att + root + end, 'multipart/related; boundary="vfb"')
+    V('no_parts', end)
+    V('empty', b'')
+    V('bad_base64', root + part([b'Content-Type: application/octet-stream', b'Content-Transfer-Encoding: base64', b'Content-ID: <att1>'], b'@@@@') + end)
+    V('root_not_xml', part([b'Content-Type: text/xml', b'Content-ID: <root>'], b'not xml <') + att + end)
+    V('root_no_body', part([b'Content-Type: text/xml', b'Content-ID: <root>'], b'<e:Envelope xmlns:e="http://schemas.xmlsoap.org/soap/envelope/"/>') + att + end)
+    V('root_fault', part([b'Content-Type: text/xml', b'Content-ID: <root>'],
+                         b'<e:Envelope xmlns:e="http://schemas.xmlsoap.org/soap/envelope/"><e:Body><e:Fault/></e:Body></e:Envelope>') + att + end)
+    V('nested', root + part([b'Content-Type: multipart/mixed; boundary="inner"'], b'--inner\r\n\r\nx\r\n--inner--') + end)
+    V('charset_unknown', root + att + end, CT + '; charset=no-such-charset')
+    V('bad_headers', b'--' + B + b'\r\n\xff\xfe: \x00\r\n\r\n' + data + b'\r\n' + end)
+    whole = root + att + end
+    step = max(1, len(whole) // (40 if tier == 'quick' else 400))
+    for k in range(0, len(whole), step):
+        out.append(('prefix:multipart', whole[:k], CT))
+    return out
+
+
 def query_mutants(rng, path, pairs, n):
     from urllib.parse import quote
     out = []
@@ -607,6 +646,9 @@ def run(spec, R):
             muts += raw_mutants(rng, kind, T, struct, tier)
             for i, (cls, m) in enumerate(muts):
                 process(R, T, m, drivers[i % len(drivers)], cls, repro)
+            if kind in ('soap11', 'soap12'):
+                for cls, m, ct in mime_mutants(rng, data, tier):
+                    process(R, T, m, 'wsgi', cls, dict(repro, ctype=ct))
     if len(R.samples) < 2:
         R.sample({'kind': kind, 'validator': validator, 'inputs': R.counters.get('inputs_processed'), 'fault_codes_seen': R.counters.get('fault_codes', [])[:12]})
 
